@@ -38,7 +38,7 @@ BASES_CYC = [
     {"nodes": ["s", "a", "b", "c", "t"], "arcs": [["s", "a", 1], ["a", "b", 1], ["b", "c", 1], ["c", "a", 0], ["c", "t", 1]]},
 ]
 
-MUTATIONS = ["covlen_0", "covlen_neg", "covlen_big", "covlen_without_length_attr", "covlen_with_coverage", "nonstring_node", "cycle", "no_source", "no_sink", "negative", "missing", "nonconserving", "cons_absent_arc", "cons_not_list", "cons_empty", "cons_nontuple",
+MUTATIONS = ["covlen_0", "covlen_neg", "covlen_big", "covlen_without_length_attr", "covlen_with_coverage", "nonstring_node", "cycle", "no_source", "no_sink", "negative", "negative_last", "missing", "nonconserving", "nonconserving_quarter", "cons_absent_arc", "cons_not_list", "cons_empty", "cons_nontuple",
              "coverage_0", "coverage_neg", "coverage_big", "k_0", "k_neg", "k_frac", "weight_type_str", "origin_foo", "unknown_start", "unknown_end", "scale_big", "scale_neg", "empty_graph"]
 
 
@@ -57,9 +57,9 @@ def applicable(cls, mut, origin):
         return not cyc
     if mut in ("no_source", "no_sink"):
         return cyc
-    if mut in ("negative", "missing"):
+    if mut in ("negative", "negative_last", "missing"):
         return cls in WEIGHTED
-    if mut == "nonconserving":
+    if mut in ("nonconserving", "nonconserving_quarter"):
         return cls in FD and origin == "edge"
     if mut.startswith("covlen"):
         return cls in DAG  # length coverage exists for the DAG models only
@@ -82,7 +82,7 @@ def required(cls, mut):
     """must a ValueError be raised (documented), or is 'never claims solved / never another exception type' all that is judged?"""
     if mut == "k_frac":
         return False
-    if mut == "nonconserving" and cls == "kFlowDecompCycles":
+    if mut in ("nonconserving", "nonconserving_quarter") and cls == "kFlowDecompCycles":
         return False  # not documented for this class; the instance is simply infeasible
     return True
 
@@ -100,7 +100,7 @@ def cases(tier, seed):
                     yield {"cls": cls, "base": base, "bi": bi, "origin": origin, "muts": [m], "fam": "cyc" if cls in CYC else "dag"}
                 if tier == "thorough":
                     def grp(m):
-                        if m in ("negative", "missing", "nonconserving"):
+                        if m in ("negative", "negative_last", "missing", "nonconserving", "nonconserving_quarter"):
                             return "weights"
                         return m.split("_")[0] if m.split("_")[0] in ("k", "coverage", "cons", "scale", "covlen") else m
                     for m1, m2 in itertools.combinations(muts, 2):
@@ -164,8 +164,18 @@ def _build(case):
             else:
                 # a node without the attribute is *ignored* by design in node mode; the violation is a missing weight on every node
                 node_w = {v: None for v in nodes}
+        elif m == "negative_last":
+            # a negative weight somewhere else than on the first element visited
+            if origin == "edge":
+                arcs[-1][2] = -1
+            else:
+                node_w[nodes[-1]] = -1
         elif m == "nonconserving":
             arcs[0][2] = arcs[0][2] + 5
+        elif m == "nonconserving_quarter":
+            # float data with a small imbalance (0.25) at an inner node
+            arcs[0][2] = arcs[0][2] + 0.25
+            kw["weight_type"] = float
         elif m == "cons_absent_arc":
             kw[ckey] = [[(nodes[-1], nodes[0])]] if origin == "edge" else [["nonexistent_node"]]
         elif m == "cons_not_list":
